@@ -249,6 +249,22 @@ def abandon_fixed_case(engine):
     return core.Case("engine", lines, {"engine": engine, "abandon": True})
 
 
+def real_change_fixed_case(engine):
+    """the three conditional operations, each begun before a REAL, committed change of its key: the first attempt compares on the
+    snapshot taken at begin (the condition holds there) and meets a write conflict; the re-run must evaluate the condition AGAIN
+    on a fresh snapshot - it fails now, nothing of the batch is applied"""
+    k, k2, other = hx(b"k"), hx(b"k2"), hx(b"other")
+    lines = ["cfg engine=%s rpcfault=abandon" % engine,
+             "batch put:%s:%s put:%s:%s" % (k, hx(b"v1"), other, hx(b"o")),
+             "bbegin b1 delcur:%s" % k, "batch put:%s:%s" % (k, hx(b"v2")), "bcommit b1", "get %s" % k,
+             "bbegin b2 cas:%s:%s:%s" % (k, hx(b"vB"), hx(b"v2")), "batch put:%s:%s" % (k, hx(b"v3")), "bcommit b2", "get %s" % k,
+             "bbegin b3 pine:%s:%s" % (k2, hx(b"n")), "batch put:%s:%s" % (k2, hx(b"x")), "bcommit b3", "get %s" % k2,
+             # the shape of the ttl pass's expiry batch: compare-and-delete of one record + plain delete of another
+             "bbegin b4 delcur:%s del:%s" % (k, other), "batch put:%s:%s" % (k, hx(b"v4")), "bcommit b4", "get %s" % k, "get %s" % other,
+             "dump"]
+    return core.Case("engine", lines, {"engine": engine, "abandon": True})
+
+
 def storm_case(engine):
     """`storm <n> <ops>`: before each of the first n prewrites of the next `bcommit` - the open transaction's and those of
     the re-runs inside the adapter's Commit - a writer on the same key is abandoned. Eight in a row: the ninth attempt
@@ -508,6 +524,7 @@ def check(rep, tier, seed):
     cases += special
     # abandoned transactions: a rollback record is not a change of the key (tikv, bare and behind the metrics wrapper)
     ab = [abandon_fixed_case(e) for e in ("tikv", "metrics-tikv")] + [storm_case(e) for e in ("tikv", "metrics-tikv")]
+    ab += [real_change_fixed_case(e) for e in ("tikv", "metrics-tikv")]
     ab += [abandon_case(seed, i, ("tikv", "metrics-tikv")[i % 2]) for i in range(2 if tier == "quick" else 400)]
     if tier != "quick":
         # the schedule without any cancellation (waits for TiKV's 3 s lock ttl: not in the quick tier)
